@@ -1,5 +1,5 @@
 package sim
 
 func allMonitors() []Monitor {
-	return []Monitor{monC01{}, &monC02{}, monC12{}, &monC13{}, monC14{}, &monRoll{}, &monC05{}, monC06{}, monC10{}, monC18{}, monC19{}, &monC16{}, monC17{}}
+	return []Monitor{monC01{}, &monC02{}, monC12{}, &monC13{}, monC14{}, &monRoll{}, &monC05{}, &monC06{}, monC10{}, monC18{}, monC19{}, &monC16{}, monC17{}}
 }
